@@ -14,6 +14,8 @@ func moreGens() []struct {
 		{"EdiConsts.v", genEdiConsts}, // C07
 		{"Safety.v", genSafety},       // C03
 		{"DeclHash.v", genDeclHash},   // C13, C15
+		{"NodeReset.v", genNodeReset}, // C12
+		{"NodeOps.v", genNodeOps},     // C12
 		{"C08Facts.v", genC08Facts},   // C08
 		{"NavShape.v", genNavShape},   // C11
 		{"CsvCfg.v", genCsvCfg},       // C06
